@@ -162,28 +162,27 @@ def run_line(case):
                                     enc_map(case["penv"]))
 
 
-def impl_run(case):
-    """the real Runner over a capturing scripted process -> (canonical line, facts for the oracle)"""
-    from fakerunner import Scripted
-    from invoke import Context, Config
-    cfg = {k: real(v) for k, v in case["cfg"].items()}
-    conf = Config(overrides={"run": cfg, "timeouts": {"command": real(case["cfg_timeout"])}}, lazy=True)
-    r = Scripted(Context(conf))
-    kw = {k: real(v) for k, v in case["kw"].items()}
+def observe_run(call, get_runner, cmd, kw_case, penv):
+    """one real run through `call(cmd, **kwargs)` -> (canonical line, facts for the oracle); `get_runner()` returns the
+    Runner object that executed it"""
+    kw = {k: real(v) for k, v in kw_case.items()}
     fin, fout, ferr = TS(0), TS(1), TS(2)
     facts = {"exc": None, "echoed": "", "started": None}
-    res = None
-    with mock.patch.dict(os.environ, case["penv"], clear=True), mock.patch.object(sys, "stdin", fin), \
+    with mock.patch.dict(os.environ, penv, clear=True), mock.patch.object(sys, "stdin", fin), \
             mock.patch.object(sys, "stdout", fout), mock.patch.object(sys, "stderr", ferr):
         try:
-            res = r.run(case["cmd"], **kw)
+            res = call(cmd, **kw)
             if res is not None and hasattr(res, "join"):
                 res = res.join()
         except Exception as e:  # noqa
             facts["exc"] = e
+    r = get_runner()
     facts["echoed"] = "".join(fout.buf)
     facts["started"] = r.started
     facts["runner"] = r
+    # snapshot: the runner object may be reused for the next run of a history
+    facts["opts"] = dict(getattr(r, "opts", {}) or {}) if facts["exc"] is None else {}
+    facts["streams"] = dict(getattr(r, "streams", {}) or {}) if facts["exc"] is None else {}
     if facts["exc"] is not None:
         e = facts["exc"]
         name = "TypeError" if isinstance(e, TypeError) else "ValueError" if isinstance(e, ValueError) else "exc:" + type(e).__name__
@@ -201,6 +200,105 @@ def impl_run(case):
         enc_real(o["timeout"]),
         ",".join("%s=%s" % (k, enc_real(o[k])) for k in sorted(o) if k not in ("hide", "timeout"))))
     return line, facts
+
+
+def make_config(case, extra=None):
+    from invoke import Config
+    cfg = {k: real(v) for k, v in case["cfg"].items()}
+    ov = {"run": cfg, "timeouts": {"command": real(case["cfg_timeout"])}}
+    ov.update(extra or {})
+    return Config(overrides=ov, lazy=True)
+
+
+def impl_run(case):
+    """the real Runner over a capturing scripted process -> (canonical line, facts for the oracle)"""
+    from fakerunner import Scripted
+    from invoke import Context
+    r = Scripted(Context(make_config(case)))
+    return observe_run(r.run, lambda: r, case["cmd"], case["kw"], case["penv"])
+
+
+def impl_hist(case):
+    """object-reuse history: ONE Config (and Context, or even Runner) object used for several runs in a row with
+    different kwargs, interleaved with blocks left by exceptions, sudo calls and fresh Contexts on the same Config.
+    Every run must behave as if it were the first: returns [(line, facts, step)] for the run steps."""
+    from fakerunner import Scripted
+    from invoke import Context
+    from invoke.watchers import StreamWatcher
+    launched = []
+
+    class Cap(Scripted):
+        def __init__(self, context):
+            super().__init__(context)
+            launched.append(self)
+
+    conf = make_config(case, {"runners": {"local": Cap}})
+    c = Context(conf)
+    reused = Scripted(c) if case["mode"] == "runner" else None
+    results = []
+    for step in case["steps"]:
+        what = step["do"]
+        if what == "run":
+            if reused is not None:
+                reused.started = None
+                line, facts = observe_run(reused.run, lambda: reused, step["cmd"], step["kw"], case["penv"])
+            else:
+                n = len(launched)
+                line, facts = observe_run(c.run, lambda: launched[n], step["cmd"], step["kw"], case["penv"])
+            results.append((line, facts, step))
+        elif what == "newctx":
+            c = Context(conf)
+            if reused is not None:
+                reused = Scripted(c)
+        elif what == "block":
+            cm = c.cd(step["arg"]) if step["k"] in ("C", "GC") else c.prefix(step["arg"])
+            try:
+                if step["k"].startswith("G"):
+                    g = held_open(cm)
+                    next(g)
+                    try:
+                        if step["exc"] is not None:
+                            raise EXC_KINDS[step["exc"]]()
+                    finally:
+                        g.close()
+                else:
+                    with cm:
+                        if step["exc"] is not None:
+                            raise EXC_KINDS[step["exc"]]()
+            except (Boom, KeyboardInterrupt, SystemExit, GeneratorExit):
+                pass
+        elif what == "sudo":
+            kw = dict(hide=True, in_stream=False)
+            if step.get("env"):
+                kw["env"] = {n: "v" for n in step["env"]}
+            if step.get("watch"):
+                kw["watchers"] = [StreamWatcher()]
+            with mock.patch.dict(os.environ, case["penv"], clear=True), contextlib.redirect_stdout(io.StringIO()), \
+                    contextlib.redirect_stderr(io.StringIO()):
+                try:  # only a source of leftover state; whether this call itself is acceptable is not checked here
+                    res = c.sudo("id", **kw)
+                    if res is not None and hasattr(res, "join"):
+                        res.join()
+                except Exception:  # noqa
+                    pass
+    return results
+
+
+def hist_lines(case):
+    return [run_line({"cmd": st["cmd"], "kw": st["kw"], "cfg": case["cfg"], "cfg_timeout": case["cfg_timeout"], "penv": case["penv"]})
+            for st in case["steps"] if st["do"] == "run"]
+
+
+def check_hist(case, defaults):
+    res = impl_hist(case)
+    why = None
+    for i, (line, facts, step) in enumerate(res):
+        w = oracle_run({"cmd": step["cmd"], "kw": step["kw"], "cfg": case["cfg"], "cfg_timeout": case["cfg_timeout"],
+                        "penv": case["penv"]}, facts, defaults)
+        if w and why is None:
+            why = "run #%d of a history on one %s object (after %d earlier steps): %s" % (
+                i + 1, "Runner" if case["mode"] == "runner" else "Context/Config", case["steps"].index(step), w)
+    return " ## ".join(line for line, _, _ in res), why
 
 
 HIDE_TABLE = {None: [], False: [], True: ["stdout", "stderr"], "both": ["stdout", "stderr"], "out": ["stdout"],
@@ -237,7 +335,7 @@ def oracle_run(case, facts, defaults):
         return None  # an undocumented hide word: the statement says nothing
     if exc is not None:
         return "unexpected %s: %s" % (type(exc).__name__, exc)
-    o = r.opts
+    o = facts["opts"]
     # every option = per-call value if given, else configured, else default (echo/hide: see the interactions below)
     for k in defaults:
         if k in ("echo", "hide"):
@@ -289,7 +387,7 @@ def oracle_run(case, facts, defaults):
     want_out = "X1" if outs is None else enc_v(outs)
     want_err = "X2" if errs is None else enc_v(errs)
     want_in = enc_v(ins) if ins is not None else ("F" if asy else "X0")
-    got = (enc_real(r.streams["out"]), enc_real(r.streams["err"]), enc_real(r.streams["in"]))
+    got = (enc_real(facts["streams"]["out"]), enc_real(facts["streams"]["err"]), enc_real(facts["streams"]["in"]))
     if got != (want_out, want_err, want_in):
         return "streams out/err/in = %s, demand %s" % (got, (want_out, want_err, want_in))
     return None
@@ -327,11 +425,31 @@ def check_hide(case):
 
 # ------------------------------------------------------------------ (c) block programs on a real Context
 
-OPEN = ("C", "P", "Y")
+OPEN = ("C", "P", "Y", "GC", "GP")
 
 
 class Boom(Exception):
     pass
+
+
+# how a block is left exceptionally: an Exception subclass, and the BaseExceptions that are NOT Exceptions
+EXC_KINDS = {0: Boom, 1: KeyboardInterrupt, 2: SystemExit, 3: GeneratorExit}
+
+
+def kind_name(e):
+    from invoke.exceptions import Failure
+    if isinstance(e, Failure):
+        return "Failure"
+    for n in (KeyboardInterrupt, SystemExit, GeneratorExit):
+        if isinstance(e, n):
+            return n.__name__
+    return "Exception"
+
+
+def held_open(cm):
+    """a generator that holds the block open while suspended; closing it throws GeneratorExit at the yield"""
+    with cm:
+        yield
 
 
 def match_end(toks, pos):
@@ -356,8 +474,10 @@ def enc_strs(xs):
 
 def tok_line(t):
     k = t[0]
-    if k in ("R", "Q", "C", "P"):
+    if k in ("R", "Q", "C", "P", "GC", "GP"):
         return k + enc_chars(t[1])
+    if k == "X":
+        return "X%d" % t[1]
     if k == "U":
         u = t[2]
         return "U%s/%s/%s" % (enc_chars(t[1]), "A" if u == "absent" else "N" if u is None else "S" + enc_chars(u),
@@ -458,7 +578,16 @@ def impl_ctx(case):
                         list(c.command_prefixes), list(c.command_cwds), pfs, cds))
                 pos += 1
             elif k == "X":
-                raise Boom()
+                raise EXC_KINDS[t[1]]()
+            elif k in ("GC", "GP"):
+                end = match_end(toks, pos + 1)
+                g = held_open(c.cd(t[1]) if k == "GC" else c.prefix(t[1]))
+                next(g)
+                try:
+                    block(pos + 1, cds + [t[1]] if k == "GC" else cds, pfs + [t[1]] if k == "GP" else pfs)
+                finally:
+                    g.close()
+                pos = end
             elif k == "C":
                 end = match_end(toks, pos + 1)
                 with c.cd(t[1]):
@@ -473,23 +602,24 @@ def impl_ctx(case):
                 end = match_end(toks, pos + 1)
                 try:
                     block(pos + 1, cds, pfs)
-                except (Boom, Failure):
-                    pass
+                except BaseException as e:  # noqa - every kind must leave the stacks restored
+                    if not isinstance(e, (Boom, Failure, KeyboardInterrupt, SystemExit, GeneratorExit)):
+                        raise
                 pos = end
             else:
                 pos += 1
 
-    raised = 0
+    raised = "-"
     sink = io.StringIO()
     with contextlib.redirect_stdout(sink), contextlib.redirect_stderr(sink):
         try:
             block(0, [], [])
-        except (Boom, Failure):
-            raised = 1
+        except (Boom, Failure, KeyboardInterrupt, SystemExit, GeneratorExit) as e:
+            raised = kind_name(e)
     if list(c.command_prefixes) or list(c.command_cwds):
         problems.append("after the outermost block the stacks are prefixes=%r cwds=%r instead of empty" % (
             list(c.command_prefixes), list(c.command_cwds)))
-    line = "%s raised=%d final=%s/%s" % ("|".join(events), raised, enc_strs(c.command_prefixes), enc_strs(c.command_cwds))
+    line = "%s raised=%s final=%s/%s" % ("|".join(events), raised, enc_strs(c.command_prefixes), enc_strs(c.command_cwds))
     return line, problems
 
 
@@ -501,6 +631,35 @@ def check_ctx(case):
 CMDS = ["ls", "make all", "x"]
 PATHS = ["/a", "b", "~/c", "d e", "/", "x/", "", "~", "/var/www", "site 1"]
 PREFIXES = ["act", "source /s", "export A=1", "p"]
+# rare shapes: `~` and `/` in every position (leading, interior, trailing, doubled), empty pieces, spaces, shell
+# metacharacters, long names, non-ASCII
+ATOMS = ["~", "/", "~", "/", "a", "b", "tmp", " ", ".", "..", "$HOME", "&", ";", "*", "|", "'", '"', "\\", "(", ")",
+         "\u00e9", "-", "=", "x" * 40]
+RARE_PATHS = ["data/~tmp", "/~archive", "a/~", "~~", "//", "//x", "a//b", "~/", "/~", "~a", "a~", " ~", " /x", "~ ", "/ ",
+              "x/~/y", "./~", "..", ".", "a b/~c d", "$(pwd)/~x", "a;b", "~user/dir", "/" + "n" * 60, "\u00e9t\u00e9/~"]
+RARE_PREFIXES = ["", " ", "a && b", "x;y", "~", "/", "cd /~z", "'q'", '"q"', "$(p)", "export P=~/bin", "w" * 50, "a\\ b", "&&"]
+RARE_CMDS = ["", " ", "ls ~/x", "echo '/~'", "a && b", "cd /~ && pwd", "z" * 50]
+
+
+def rare(rng, fixed, plain):
+    x = rng.random()
+    if x < 0.4:
+        return rng.choice(plain)
+    if x < 0.7:
+        return rng.choice(fixed)
+    return "".join(rng.choice(ATOMS) for _ in range(rng.randint(1, 5)))
+
+
+def gen_path(rng):
+    return rare(rng, RARE_PATHS, PATHS)
+
+
+def gen_prefix(rng):
+    return rare(rng, RARE_PREFIXES, PREFIXES)
+
+
+def gen_cmd(rng):
+    return rng.choice(CMDS) if rng.random() < 0.7 else rare(rng, RARE_CMDS, CMDS)
 
 
 def gen_prog(rng, depth, budget):
@@ -512,23 +671,55 @@ def gen_prog(rng, depth, budget):
         budget[0] -= 1
         x = rng.random()
         if x < 0.22:
-            toks.append(["R", rng.choice(CMDS)])
+            toks.append(["R", gen_cmd(rng)])
         elif x < 0.30:
-            toks.append(["U", rng.choice(CMDS), rng.choice(["absent", "absent", None, "bob"]),
+            toks.append(["U", gen_cmd(rng), rng.choice(["absent", "absent", None, "bob"]),
                          rng.choice([[], [], ["A"], ["A", "B_C"]])])
         elif x < 0.42:
             toks.append(["O"])
-        elif x < 0.48:
-            toks.append(["X"])
-        elif x < 0.54:
+        elif x < 0.50:
+            toks.append(["X", rng.choice([0, 1, 1, 2, 2, 3])])
+        elif x < 0.55:
             toks.append(["Q", rng.choice(CMDS)])
-        elif depth < 5:
-            k = rng.choice(["C", "C", "P", "P", "Y"])
-            toks.append([k, rng.choice(PATHS)] if k == "C" else [k, rng.choice(PREFIXES)] if k == "P" else [k])
+        elif depth < 6:
+            k = rng.choice(["C", "C", "P", "P", "Y", "Y", "GC", "GP"])
+            toks.append([k, gen_path(rng)] if k in ("C", "GC") else [k, gen_prefix(rng)] if k in ("P", "GP") else [k])
             toks += gen_prog(rng, depth + 1, budget)
             toks.append(["E"])
         else:
-            toks.append(["R", rng.choice(CMDS)])
+            toks.append(["R", gen_cmd(rng)])
+    return toks
+
+
+def gen_deep_exit(rng):
+    """blocks nested several levels deep, left by one exception from the innermost level, caught at a random outer
+    level, followed by observations, run/sudo calls and NEW blocks on the same Context"""
+    depth = rng.randint(2, 6)
+    catch_at = rng.randint(0, depth - 1)
+    toks = []
+    closers = 0
+    for lvl in range(depth):
+        if lvl == catch_at:
+            toks.append(["Y"])
+            closers += 1
+        k = rng.choice(["C", "P", "GC", "GP"])
+        toks.append([k, gen_path(rng)] if k in ("C", "GC") else [k, gen_prefix(rng)])
+        closers += 1
+        if rng.random() < 0.3:
+            toks.append(["R", gen_cmd(rng)])
+    toks.append(rng.choice([["X", 0], ["X", 1], ["X", 2], ["X", 3], ["Q", "false"]]))
+    opened = [t[0] for t in toks if t[0] in OPEN]
+    # close everything down to (and including) the try; after it we are at the nesting level of `catch_at`
+    n_close = len(opened) - sum(1 for t in toks[:toks.index(["Y"])] if t[0] in OPEN)
+    for _ in range(n_close):
+        toks.append(["E"])
+    after = [["O"], ["R", gen_cmd(rng)], ["U", "ls", rng.choice(["absent", "bob"]), []]]
+    k = rng.choice(["C", "P"])
+    after += [[k, gen_path(rng)] if k == "C" else [k, gen_prefix(rng)], ["R", gen_cmd(rng)], ["O"], ["E"], ["O"]]
+    toks += after
+    for _ in range(len(opened) - n_close):
+        toks.append(["E"])
+    toks.append(["O"])
     return toks
 
 
@@ -592,6 +783,8 @@ def replay(case):
         line, why = check_cwd(case)
     elif k == "sudopw":
         line, why = check_sudopw(case)
+    elif k == "hist":
+        line, why = check_hist(case, _defaults())
     else:
         return True, "unknown case kind"
     return why is None, why or "ok: %s" % line[:300]
@@ -701,20 +894,66 @@ def run(ctx):
         for o, e in itertools.product([False, True], repeat=2):
             cases.append({"kind": "hide", "val": v, "out": o, "err": e})
     # (c) block programs
-    for _ in range(ctx.n(700, 12000)):
-        toks = gen_prog(rng, 0, [rng.randint(3, 18)])
+    for i in range(ctx.n(900, 14000)):
+        toks = gen_prog(rng, 0, [rng.randint(3, 18)]) if i % 3 else gen_deep_exit(rng)
         cases.append({"kind": "ctx", "prompt": rng.choice(["[sudo] password: ", "PW> "]), "user": rng.choice([None, None, "root", "al"]),
                       "toks": toks})
-    # (d) cwd
-    for _ in range(ctx.n(400, 6000)):
-        cases.append({"kind": "cwd", "paths": [rng.choice(PATHS) for _ in range(rng.randint(0, 5))]})
+    # (d) cwd: every rare single component at depth 1..3 behind plain anchors, then random stacks
+    for p in RARE_PATHS + PATHS:
+        for pre in ([], ["/srv"], ["~"], ["rel"], ["/srv", "sub dir"]):
+            for post in ([], ["logs"]):
+                cases.append({"kind": "cwd", "paths": pre + [p] + post})
+    for _ in range(ctx.n(500, 8000)):
+        cases.append({"kind": "cwd", "paths": [gen_path(rng) for _ in range(rng.randint(0, 6))]})
+
+    # (f) object-reuse histories
+    def rand_kw(p):
+        kw = {}
+        for k in keys:
+            if rng.random() < p:
+                kw[k] = rng.choice(DOM_KW[k])
+        if rng.random() < 0.15:
+            kw["timeout"] = rng.choice([None, 5])
+        return kw
+
+    sticky = [{"hide": True}, {"echo": True}, {"dry": True}, {"asynchronous": True}, {"disown": True}, {"warn": True},
+              {"env": {"map": {"A": "2", "B": "x"}}, "replace_env": True}, {"watchers": {"list": 1}}, {"out_stream": S_OUT},
+              {"in_stream": S_IN}, {"shell": "/bin/zsh"}, {"echo_format": "RUN {command}"}, {"timeout": 5}, {"pty": True},
+              {"hide": "both", "err_stream": S_ERR}, {"bogus": True}, {"asynchronous": True, "disown": True}]
+    for _ in range(ctx.n(350, 5000)):
+        cfg = {}
+        for k in keys:
+            if rng.random() < 0.12:
+                cfg[k] = rng.choice(DOM_CFG[k])
+        mode = rng.choice(["context", "context", "runner"])
+        steps = []
+        for _ in range(rng.randint(2, 5)):
+            x = rng.random()
+            if x < 0.35:  # a run with a "sticky" option, then its effect must be gone in the next run
+                steps.append({"do": "run", "cmd": gen_cmd(rng), "kw": dict(rng.choice(sticky))})
+            elif x < 0.6:
+                steps.append({"do": "run", "cmd": gen_cmd(rng), "kw": rand_kw(rng.choice([0.0, 0.1, 0.3]))})
+            elif x < 0.8 and mode == "context":
+                steps.append({"do": "block", "k": rng.choice(["C", "P", "GC", "GP"]), "arg": gen_prefix(rng),
+                              "exc": rng.choice([None, 0, 1, 2, 3])})
+            elif x < 0.9 and mode == "context":
+                steps.append({"do": "sudo", "env": rng.choice([[], ["A"]]), "watch": rng.random() < 0.5})
+            else:
+                steps.append({"do": "newctx"})
+        steps.append({"do": "run", "cmd": gen_cmd(rng), "kw": rand_kw(rng.choice([0.0, 0.0, 0.1]))})
+        cases.append({"kind": "hist", "mode": mode, "cfg": cfg, "cfg_timeout": rng.choice([None, None, 9]), "penv": PENV,
+                      "steps": steps})
 
     for kwp, cfgp, ws in itertools.product(["absent", None, "pw", ""], [None, "secret"], [False, True]):
         cases.append({"kind": "sudopw", "kw": kwp, "cfg": cfgp, "watchers": ws})
 
-    lines = []
+    lines, spans = [], []
     for c in cases:
         k = c["kind"]
+        spans.append(len(lines))
+        if k == "hist":
+            lines += hist_lines(c)
+            continue
         if k == "sudopw":
             lines.append("resp %s %s" % ("A" if c["kw"] == "absent" else enc_v(c["kw"]), enc_v(c["cfg"])))
             continue
@@ -726,11 +965,18 @@ def run(ctx):
             lines.append(ctx_line(c))
         else:
             lines.append("cwd " + enc_strs(c["paths"]))
-    model = drv.run(lines) if ctx.model_ok else [None] * len(lines)
+    spans.append(len(lines))
+    raw = drv.run(lines) if ctx.model_ok else None
+    model = [None if raw is None else " ## ".join(raw[spans[i]:spans[i + 1]]) for i in range(len(cases))]
 
     for c, m in zip(cases, model):
         k = c["kind"]
-        if k == "run":
+        if k == "hist":
+            out.case(c, True)
+            got, why = check_hist(c, defaults)
+            out.hist["hist:" + c["mode"]] += 1
+            out.hist["hist:runs"] += sum(1 for st in c["steps"] if st["do"] == "run")
+        elif k == "run":
             out.case(c, bool(c["kw"] or c["cfg"]))
             got, why = check_run(c, defaults)
             out.hist["run-outcome:" + got.split(" ")[0] + ("" if got.startswith("ok") else ":" + got.split(" ")[-1])] += 1
@@ -749,8 +995,13 @@ def run(ctx):
             out.case(c, any(t[0] in OPEN for t in c["toks"]))
             got, why = check_ctx(c)
             out.hist["ctx"] += 1
-            if " raised=1" in got:
-                out.hist["ctx:raised-to-top"] += 1
+            if " raised=-" not in got:
+                out.hist["ctx:raised-to-top:" + got.split(" raised=")[1].split(" ")[0]] += 1
+            for t in c["toks"]:
+                if t[0] == "X":
+                    out.hist["ctx:raise:" + EXC_KINDS[t[1]].__name__] += 1
+                elif t[0] in ("GC", "GP"):
+                    out.hist["ctx:generator-held-block"] += 1
             if any(t[0] == "Y" for t in c["toks"]):
                 out.hist["ctx:with-try"] += 1
             if any(t[0] == "U" for t in c["toks"]):
